@@ -504,18 +504,31 @@ class World:
             data = {k: data[k] for k in c['key_order'] if k in data} | {k: v for k, v in data.items() if k not in c['key_order']}
         return data
 
-    def _value_for_config(self, v):
+    def _value_for_config(self, v, memo=None):
+        """descriptor value -> config value (object definitions get their import string). Container objects that occur
+        several times in the descriptor value stay ONE object in the config value (as YAML aliases would give)."""
+        memo = {} if memo is None else memo
+        if isinstance(v, (dict, list)) and id(v) in memo:
+            return memo[id(v)]
         if isinstance(v, dict) and '__obj__' in v:
             out = {'class': f'{self.modname}.{v["__obj__"]}'}
+            memo[id(v)] = out
             if 'args' in v:
-                out['args'] = [self._value_for_config(x) for x in v['args']]
+                out['args'] = [self._value_for_config(x, memo) for x in v['args']]
             if 'kwargs' in v:
-                out['kwargs'] = {k: self._value_for_config(x) for k, x in v['kwargs'].items()}
+                out['kwargs'] = {k: self._value_for_config(x, memo) for k, x in v['kwargs'].items()}
             return out
         if isinstance(v, dict):
-            return {k: self._value_for_config(x) for k, x in v.items()}
+            out = {}
+            memo[id(v)] = out
+            for k, x in v.items():
+                out[k] = self._value_for_config(x, memo)
+            return out
         if isinstance(v, list):
-            return [self._value_for_config(x) for x in v]
+            out = []
+            memo[id(v)] = out
+            out.extend(self._value_for_config(x, memo) for x in v)
+            return out
         return v
 
     def _file_of(self, d, cid, vid):
